@@ -258,6 +258,71 @@ func (s *rawStore) plant(name string, b []byte) {
 	s.m[name] = append([]byte(nil), b...)
 }
 
+// ---- locked views for the generator / interpreter goroutine ----
+
+func (s *rawStore) count() int {
+	s.mu.Lock()
+	defer s.mu.Unlock()
+	return len(s.m)
+}
+
+func (s *rawStore) numNames() int {
+	s.mu.Lock()
+	defer s.mu.Unlock()
+	return len(s.names)
+}
+
+func (s *rawStore) nameAt(i int) (string, bool) {
+	s.mu.Lock()
+	defer s.mu.Unlock()
+	if i < 0 || i >= len(s.names) {
+		return "", false
+	}
+	return s.names[i], true
+}
+
+func (s *rawStore) tokenNum(name string) (int, bool) {
+	s.mu.Lock()
+	defer s.mu.Unlock()
+	n, ok := s.token[name]
+	return n, ok
+}
+
+// view copies the token order and the contents.
+func (s *rawStore) view() ([]string, map[string][]byte) {
+	s.mu.Lock()
+	defer s.mu.Unlock()
+	m := make(map[string][]byte, len(s.m))
+	for k, v := range s.m {
+		m[k] = v
+	}
+	return append([]string(nil), s.names...), m
+}
+
+func (s *rawStore) SortedNames() []string {
+	s.mu.Lock()
+	defer s.mu.Unlock()
+	return s.sortedNames()
+}
+
+func (s *rawStore) setContents(m map[string][]byte) {
+	s.mu.Lock()
+	s.m = m
+	s.mu.Unlock()
+}
+
+func (w *world) numCalls() int {
+	w.callsMu.Lock()
+	defer w.callsMu.Unlock()
+	return len(w.calls)
+}
+
+func (w *world) callsCopy() []call {
+	w.callsMu.Lock()
+	defer w.callsMu.Unlock()
+	return append([]call(nil), w.calls...)
+}
+
 func (s *rawStore) snapshot() map[string][]byte {
 	s.mu.Lock()
 	defer s.mu.Unlock()
